@@ -237,12 +237,14 @@ func checkScen(c ScenCase, o *vf.Obs) error {
 			}
 		}
 	}
+	anyNeg, anyBeyond := false, false
 	for i, st := range c.Steps {
 		o.Class("post_" + st.Post)
 		neg, beyond := substrClasses(c, i)
-		o.ClassIf(neg, "substr_negative_index")
-		o.ClassIf(beyond, "substr_negative_index_beyond_value")
+		anyNeg, anyBeyond = anyNeg || neg, anyBeyond || beyond
 	}
+	o.ClassIf(anyNeg, "substr_negative_index")
+	o.ClassIf(anyBeyond, "substr_negative_index_beyond_value")
 	if mis > 0 && goodAfter {
 		o.NonTrivial()
 	}
